@@ -636,6 +636,33 @@ extend('C05',
        'iso_code_is_table_code); the row oracle\'s expected unit comes from the tables and the compound oracle checks unit and '
        'ISO code.')
 
+extend('C06',
+       'ROUND 3 (front end, other cultures) — the same theorem for Spanish (es-es and es-mx), French, Portuguese and German: '
+       'front_abs_date_es / _esmx / _fr / _fr_day1 / _pt / _de — parse_basic_regex_match on the culture\'s regenerated date_regex '
+       'list, applied to any layout of the committed contract and any date 1900-2099 (year digits symbolic, the culture\'s '
+       'day-month order included), followed by match_to_date and resolution, yields TIMEX = value = that date for every '
+       'reference; token_tables_<cul> pin the culture\'s month / day words on the regenerated maps (a swapped "enero -> 2" breaks '
+       'an obligation). Italian and Dutch run the same model in correspondence only (their certificates exceed the build '
+       'budget). ~27 s of correspondence over seven cultures per quick run.')
+extend('C11',
+       'HARDENING (audit) — the assembly set_parse_result -> _date_time_resolution is modelled for every slot kind, modifier '
+       'and flag (Model/Assemble) and compared on thousands of constructed slots each run; type-name agreement, value = '
+       'definite TIMEX (plain and behind a modifier) and duration value = TIMEX seconds are theorems about that model (the '
+       'former tautologies are gone); the invalid-date marker is filtered for every modifier except before / after / since, '
+       'where negative theorems and the pipeline replay show it is emitted (recorded findings, patch proposed); the oracle also '
+       'demands duration values, modifier ends and the absence of the marker; every query records exceptions swallowed by '
+       'DateTimeModel.parse (evidence swallowed_exceptions).')
+extend('C12',
+       'HARDENING (audit) — both hypotheses of the merged-extractor disjointness theorem are evaluated on every recorded call '
+       '(extClearB proved equal to ExtClear; counters in the evidence); non-emptiness on the date-time path is conditional on '
+       'non-empty tokens: monitored, with a witness for an empty token.')
+extend('C01',
+       'HARDENING (audit) — spanOK is derived from the text theorems under one table hypothesis checked for all 1,112,064 code '
+       'points each run (spanOK_of_preprocessed_slice); datetime_path_span; the header no longer overclaims non-emptiness.')
+extend('C09',
+       'HARDENING (audit) — the two generate_dates models are proved equal (generateDates_models_agree); the weekday branch is '
+       'total under a three-week guard (weekday_candidates_total); the month-day guard is exact (monthday_guard_exact).')
+
 ALL_IDS = ['C%02d' % i for i in range(1, 21)]
 PENDING = 'check not built yet in this revision (work in progress; see DESIGN.md §8 build order)'
 
